@@ -123,8 +123,35 @@ def run_instance(prog, db, classmap, cname, con, cargs, budget=6000):
                     kind, detail = 'leftover', f'the cell of `{x.label}` is opened with begin_parse() and left with unread ' + '; '.join(x.remaining_desc())[:200]
                 elif sl.only_any():
                     bad = routing_problem(con, res)
-                    if bad:
+                    if not bad:
+                        # the same value parsed a second time in the same process (same choices, equal field values, a fresh slice): the parser
+                        # must read the second slice just as it read the first - whatever it remembers from earlier calls
+                        save_pos = orc.pos
+                        orc.pos = 0
+                        sl2 = AbsSlice(it, db, [], {}, cname)
+                        sl2.toks = sl2.constructor_tokens(con, cargs)
+                        first2 = sl2
+                        if isinstance(first, CellObj):
+                            first2 = CellObj(it, db, ('id', 'Cell'), {}, cname)
+                            first2.root_slice = sl2
+                            first2.type_value = first.type_value
+                        it.subslices = []
+                        try:
+                            it.call(Bound(cls, FuncRef(fn, c.module, c)), [first2] + extra, {})
+                            sub2 = [x for x in getattr(it, 'subslices', []) if x.trace and not x.only_any()]
+                            if not sl2.only_any() or sub2:
+                                bad = 'parsed a second time in the same process, an equal value is not read: the second slice is left with ' + '; '.join((sub2[0] if sub2 else sl2).remaining_desc())[:160]
+                        except RaiseEx as e2:
+                            bad = f'parsed a second time in the same process, an equal value raises {e2.kind}'
+                        except Mismatch as e2:
+                            bad = f'second parse in the same process: {str(e2)[:160]}'
+                        orc.pos = max(orc.pos, save_pos)
+                        if bad:
+                            kind, detail = 'leftover', bad
+                    elif bad:
                         kind, detail = 'route', bad
+                    if bad:
+                        pass
                     else:
                         kind = 'ok'
                         if len(samples) < 2:
@@ -236,9 +263,15 @@ def unjustified_rejection(it, sl, con):
 
 
 def routing_problem(con, res):
-    """obligation (d): the symbol of schema field X must not end up in the attribute named after another field Y of the same constructor"""
+    """obligation (d): the symbol of schema field X must not end up in the attribute named after another field Y of the same constructor;
+    a list of sub-cell slices handed out as the result (the leaves of a BinTree) is in the order the schema gives them: depth-first, left to right"""
     if not isinstance(res, Inst):
         return None
+    for attr, v in res.attrs.items():
+        if isinstance(v, ListV) and len(v.items) >= 2 and all(isinstance(x, AbsSlice) and hasattr(x, 'path') for x in v.items):
+            paths = [x.path for x in v.items]
+            if paths != sorted(paths):
+                return f'the sub-cells collected in `{attr}` come in the order {paths}, the schema (left before right, depth first) gives {sorted(paths)}'
     names = set(field_names(con))
     for attr, v in res.attrs.items():
         if isinstance(v, Sym) and v.meta.get('field') and attr in names and v.meta['field'] in names and v.meta['field'] != attr:
